@@ -145,10 +145,12 @@ Section Canon.
   (* ---------------------------------------------------------------- whole documents *)
   Variables hs fs : bool.                     (* blank line after the header / before the footer *)
 
+  Definition hpart (h : list Z) : list line :=
+    match h with [] => [] | _ :: _ => cmt_lines h ++ (if hs then [LBlank] else []) end.
+  Definition fpart (f : list Z) : list line :=
+    match f with [] => [] | _ :: _ => (if fs then [LBlank] else []) ++ cmt_lines f end.
   Definition txt (d : doc) : list line :=
-    (match header d with [] => [] | h => cmt_lines h ++ (if hs then [LBlank] else []) end)
-    ++ rend None (entries d)
-    ++ (match footer d with [] => [] | f => (if fs then [LBlank] else []) ++ cmt_lines f end).
+    hpart (header d) ++ rend None (entries d) ++ fpart (footer d).
 
   (* the document obtained by parsing the canonical text of d (entries e1 :: r) *)
   Definition ndoc (h : list Z) (e1 : entry) (r : list entry) (f : list Z) : doc :=
@@ -164,9 +166,9 @@ Section Canon.
     unfold parse, txt, ndoc. simpl header. simpl entries. simpl footer.
     rewrite !fold_left_app.
     (* header part *)
-    assert (H1 : fold_left pstep (match h with [] => [] | _ :: _ => cmt_lines h ++ (if hs then [LBlank] else []) end) (Pre [] [])
+    assert (H1 : fold_left pstep (hpart h) (Pre [] [])
                  = Pre (if hs then h else []) (if hs then [] else h)).
-    { destruct h as [| c h']; [destruct hs; reflexivity |].
+    { unfold hpart. destruct h as [| c h']; [destruct hs; reflexivity |].
       rewrite fold_left_app, read_cmts_pre. destruct hs; reflexivity. }
     rewrite H1. clear H1.
     (* first entry *)
@@ -178,12 +180,13 @@ Section Canon.
     change (decl e1) with (decl cur1).
     rewrite read_entries. rewrite app_nil_r.
     (* footer part *)
-    destruct f as [| c f'].
+    unfold fpart. destruct f as [| c f'].
     - simpl. rewrite rev_involutive. destruct fs; simpl; [reflexivity |].
       unfold with_trail. now rewrite app_nil_r, entry_eta.
     - destruct fs.
-      + simpl app. simpl fold_left. rewrite read_cmts_nadj. simpl. now rewrite rev_involutive.
-      + simpl app. rewrite read_cmts_adj. simpl. now rewrite rev_involutive.
+      + rewrite fold_left_app, (fold_single LBlank). simpl (pstep _ LBlank).
+        rewrite read_cmts_nadj. simpl. now rewrite rev_involutive.
+      + rewrite app_nil_l, read_cmts_adj. simpl. now rewrite rev_involutive.
   Qed.
 
   Lemma txt_ndoc h e1 r f : txt (ndoc h e1 r f) = txt (mkd h (e1 :: r) f).
@@ -198,12 +201,9 @@ Section Canon.
     rewrite E. clear E.
     change (rend None (cur1 :: r)) with (render_entry cur1 ++ rend (Some (decl e1)) r).
     change (rend None (e1 :: r)) with (render_entry e1 ++ rend (Some (decl e1)) r).
-    unfold cur1, render_entry, with_lead. simpl.
-    destruct hs, fs; simpl; repeat rewrite cmt_lines_app; repeat rewrite <- app_assoc; simpl.
-    - destruct h, f; reflexivity.
-    - destruct h; destruct f; simpl; repeat rewrite app_nil_r; repeat rewrite <- app_assoc; reflexivity.
-    - destruct h; destruct f; simpl; repeat rewrite app_nil_r; repeat rewrite <- app_assoc; reflexivity.
-    - destruct h; destruct f; simpl; repeat rewrite app_nil_r; repeat rewrite <- app_assoc; reflexivity.
+    unfold cur1, render_entry, with_lead, hpart, fpart. simpl.
+    destruct hs, fs; destruct h as [| hc h']; destruct f as [| fc f']; simpl;
+      repeat rewrite cmt_lines_app; simpl; lnorm; reflexivity.
   Qed.
 
   Lemma ndoc_decls h e1 r f :
@@ -221,3 +221,400 @@ Section Canon.
     - destruct (fst (normp cur1 r)); discriminate.
   Qed.
 End Canon.
+
+(* ================================================================ blank-line collapsing on canonical texts *)
+Definition nb (l : line) : bool := negb (is_blank l).
+
+Fixpoint nodbl (pb : bool) (ls : list line) : bool :=
+  match ls with
+  | [] => true
+  | LBlank :: r => negb pb && nodbl true r
+  | _ :: r => nodbl false r
+  end.
+
+Lemma limit_nodbl k ls : forall pb,
+  nodbl pb ls = true -> limit_blanks (S k) (if pb then 1%nat else 0%nat) ls = ls.
+Proof.
+  induction ls as [| l ls IH]; intros pb H; [reflexivity |].
+  destruct l as [| c | d s e]; simpl in *.
+  - apply andb_true_iff in H. destruct H as [Hp H]. destruct pb; [discriminate |].
+    simpl. f_equal. exact (IH true H).
+  - f_equal. exact (IH false H).
+  - f_equal. exact (IH false H).
+Qed.
+
+Lemma nodbl_nb_prefix A : forall X pb,
+  forallb nb A = true -> A <> [] -> nodbl pb (A ++ X) = nodbl false X.
+Proof.
+  induction A as [| a A IH]; intros X pb H N; [contradiction |].
+  simpl in H. apply andb_true_iff in H. destruct H as [Ha HA].
+  destruct a as [| c | d s e]; [discriminate | |]; simpl;
+    (destruct A as [| a' A']; [reflexivity | apply IH; [exact HA | discriminate]]).
+Qed.
+
+Lemma nb_cmts cs : forallb nb (cmt_lines cs) = true.
+Proof. induction cs; simpl; auto. Qed.
+Lemma nb_render_entry e : forallb nb (render_entry e) = true /\ render_entry e <> [].
+Proof.
+  unfold render_entry. split.
+  - rewrite !forallb_app, !nb_cmts. reflexivity.
+  - destruct (cmt_lines (lead e)); discriminate.
+Qed.
+
+Lemma nodbl_cmts cs : forall pb, nodbl pb (cmt_lines cs) = true.
+Proof. induction cs as [| c cs IH]; intro pb; simpl; auto. Qed.
+
+Lemma limit0_filter ls : forall run, limit_blanks 0 run ls = filter nb ls.
+Proof.
+  induction ls as [| l ls IH]; intro run; [reflexivity |].
+  destruct l; simpl; rewrite ?IH; reflexivity.
+Qed.
+
+Lemma drop_final_nb ls : forallb nb ls = true -> drop_final_blank ls = ls.
+Proof.
+  induction ls as [| l ls IH]; intro H; [reflexivity |].
+  simpl in H. apply andb_true_iff in H. destruct H as [Hl H].
+  destruct ls as [| l' ls'].
+  - destruct l; [discriminate | reflexivity | reflexivity].
+  - rewrite drop_final_blank_cons, (IH H). reflexivity.
+Qed.
+
+Lemma drop_final_snoc ls : forall x, nb x = true -> drop_final_blank (ls ++ [x]) = ls ++ [x].
+Proof.
+  induction ls as [| l ls IH]; intros x H.
+  - destruct x; [discriminate | reflexivity | reflexivity].
+  - destruct ls as [| l' ls'].
+    + simpl. destruct l; destruct x; try discriminate; reflexivity.
+    + change ((l :: l' :: ls') ++ [x]) with (l :: l' :: (ls' ++ [x])).
+      rewrite drop_final_blank_cons. f_equal. exact (IH x H).
+Qed.
+
+Lemma filter_nb_id ls : forallb nb ls = true -> filter nb ls = ls.
+Proof.
+  induction ls as [| l ls IH]; intro H; [reflexivity |].
+  simpl in *. apply andb_true_iff in H. destruct H as [Hl H]. rewrite Hl, (IH H). reflexivity.
+Qed.
+
+Section Regimes.
+  Variable imp : Z -> option (Z * Z).
+  Definition tgI (d1 d2 : Z) : bool :=
+    match imp d1, imp d2 with Some (g, _), Some (g', _) => g =? g' | _, _ => false end.
+  Definition tgT (_ _ : Z) : bool := true.
+
+  Lemma render_entries_rend es : forall prev,
+    render_entries imp prev es = rend tgI (option_map decl prev) es.
+  Proof.
+    induction es as [| e r IH]; intro prev; [reflexivity |].
+    simpl. rewrite IH. destruct prev as [p |]; reflexivity.
+  Qed.
+
+  Lemma render_txt d : entries d <> [] -> render imp d = txt tgI true true d.
+  Proof.
+    intro N. unfold render, txt, hpart, fpart. rewrite render_entries_rend. simpl option_map.
+    destruct (header d) as [| hc h']; destruct (footer d) as [| fc f']; destruct (entries d); try contradiction; reflexivity.
+  Qed.
+
+  (* the canonical text with blank lines has no two consecutive blank lines and does not end with one *)
+  Lemma nodbl_rend es : forall prev tail,
+    nodbl false tail = true -> nodbl false (rend tgI prev es ++ tail) = true.
+  Proof.
+    induction es as [| e r IH]; intros prev tail H; [exact H |].
+    simpl rend. destruct (nb_render_entry e) as [N1 N2].
+    assert (G : nodbl false ((render_entry e ++ rend tgI (Some (decl e)) r) ++ tail) = true).
+    { rewrite <- app_assoc. rewrite (nodbl_nb_prefix _ _ false N1 N2). now apply IH. }
+    destruct prev as [p |]; [destruct (tgI p (decl e)) |]; simpl app; try exact G.
+    simpl. rewrite <- app_assoc. rewrite (nodbl_nb_prefix _ _ true N1 N2). now apply IH.
+  Qed.
+
+  Lemma rend_last es : forall prev, es <> [] ->
+    exists ls x, rend tgI prev es = ls ++ [x] /\ nb x = true.
+  Proof.
+    induction es as [| e r IH]; intros prev N; [contradiction |].
+    destruct r as [| e' r'].
+    - simpl. unfold render_entry. destruct (trail e) as [| c t] eqn:T using rev_ind.
+      + exists ((match prev with None => [] | Some p => if tgI p (decl e) then [] else [LBlank] end) ++ cmt_lines (lead e)),
+          (LCode (decl e) (semi e) (same e)).
+        split; [simpl; lnorm; reflexivity | reflexivity].
+      + exists ((match prev with None => [] | Some p => if tgI p (decl e) then [] else [LBlank] end)
+                ++ cmt_lines (lead e) ++ [LCode (decl e) (semi e) (same e)] ++ cmt_lines t), (LCmt c).
+        split; [| reflexivity]. rewrite cmt_lines_app. simpl. lnorm. reflexivity.
+    - destruct (IH (Some (decl e))) as [ls [x [E Hx]]]; [discriminate |].
+      exists ((match prev with None => [] | Some p => if tgI p (decl e) then [] else [LBlank] end)
+              ++ render_entry e ++ ls), x.
+      split; [| exact Hx].
+      change (rend tgI prev (e :: e' :: r')) with
+        ((match prev with None => [] | Some p => if tgI p (decl e) then [] else [LBlank] end)
+         ++ render_entry e ++ rend tgI (Some (decl e)) (e' :: r')).
+      rewrite E. lnorm. reflexivity.
+  Qed.
+
+  Lemma collapse_pos k d : entries d <> [] ->
+    drop_final_blank (limit_blanks (S k) O (txt tgI true true d)) = txt tgI true true d.
+  Proof.
+    intro N.
+    assert (ND : nodbl false (txt tgI true true d) = true).
+    { unfold txt, hpart, fpart.
+      assert (F : nodbl false (match footer d with [] => [] | _ :: _ => [LBlank] ++ cmt_lines (footer d) end) = true).
+      { destruct (footer d) as [| fc f']; [reflexivity |]. simpl. apply nodbl_cmts. }
+      destruct (header d) as [| hc h'].
+      - simpl app. now apply nodbl_rend.
+      - rewrite <- app_assoc. rewrite (nodbl_nb_prefix _ _ false (nb_cmts _)); [| discriminate].
+        simpl app. simpl nodbl.
+        destruct (entries d) as [| e r]; [contradiction |].
+        simpl rend. destruct (nb_render_entry e) as [N1 N2].
+        rewrite <- app_assoc, (nodbl_nb_prefix _ _ true N1 N2).
+        now apply nodbl_rend. }
+    rewrite (limit_nodbl k _ false ND).
+    (* does not end with a blank line *)
+    unfold txt, hpart, fpart.
+    destruct (footer d) as [| fc f'] using rev_ind.
+    - rewrite app_nil_r. destruct (rend_last (entries d) None N) as [ls [x [E Hx]]].
+      rewrite E, app_assoc. now apply drop_final_snoc.
+    - clear IHf'.
+      assert (E : (match f' ++ [fc] with [] => [] | _ :: _ => [LBlank] ++ cmt_lines (f' ++ [fc]) end)
+                  = ([LBlank] ++ cmt_lines f') ++ [LCmt fc]).
+      { destruct f'; simpl; [reflexivity |]. rewrite cmt_lines_app. simpl. lnorm. reflexivity. }
+      rewrite E, !app_assoc. now apply drop_final_snoc.
+  Qed.
+
+  Lemma filter_rend es : forall prev prev',
+    filter nb (rend tgI prev es) = rend tgT prev' es.
+  Proof.
+    induction es as [| e r IH]; intros prev prev'; [reflexivity |].
+    simpl rend. rewrite !filter_app, (IH _ (Some (decl e))).
+    destruct (nb_render_entry e) as [N1 _]. rewrite (filter_nb_id _ N1).
+    replace (filter nb match prev with None => [] | Some p => if tgI p (decl e) then [] else [LBlank] end) with (@nil line)
+      by (destruct prev as [p |]; [destruct (tgI p (decl e)) |]; reflexivity).
+    destruct prev'; reflexivity.
+  Qed.
+
+  Lemma collapse_zero d : entries d <> [] ->
+    drop_final_blank (limit_blanks O O (txt tgI true true d)) = txt tgT false false d.
+  Proof.
+    intro N. rewrite limit0_filter.
+    assert (E : filter nb (txt tgI true true d) = txt tgT false false d).
+    { unfold txt, hpart, fpart. rewrite !filter_app, (filter_rend _ None None).
+      f_equal; [| f_equal].
+      - destruct (header d) as [| hc h']; [reflexivity |].
+        rewrite filter_app, (filter_nb_id _ (nb_cmts _)). simpl. now rewrite app_nil_r.
+      - destruct (footer d) as [| fc f']; [reflexivity |].
+        rewrite filter_app, (filter_nb_id _ (nb_cmts _)). reflexivity. }
+    rewrite E. apply drop_final_nb.
+    rewrite <- E. clear E. induction (txt tgI true true d) as [| l ls IH]; [reflexivity |].
+    simpl. destruct (nb l) eqn:H; simpl; rewrite ?H; auto.
+  Qed.
+End Regimes.
+
+(* ================================================================ the preparation steps are the identity on N(D) *)
+Section Prep.
+  Variable imp : Z -> option (Z * Z).
+  Notation is_import := (is_import imp).
+
+  Lemma const_map_len (A B : Type) (l1 : list A) : forall (l2 : list B),
+    length l1 = length l2 -> map (fun _ => false) l1 = map (fun _ => false) l2.
+  Proof.
+    induction l1 as [| a l1 IH]; intros [| b l2] H; try discriminate; [reflexivity |].
+    simpl. f_equal. apply IH. now injection H.
+  Qed.
+
+  Lemma strip_id es : map semi es = map (fun _ => false) es -> strip_semis es = es.
+  Proof.
+    induction es as [| e r IH]; intro H; [reflexivity |].
+    simpl in *. injection H as H1 H2. rewrite (IH H2). f_equal.
+    rewrite <- H1. apply entry_eta.
+  Qed.
+  Lemma strip_all_false es : map semi (strip_semis es) = map (fun _ => false) (strip_semis es).
+  Proof. induction es as [| e r IH]; simpl; [reflexivity | now rewrite IH]. Qed.
+
+  Lemma sort_ordered_id l : ordered imp l -> sort_entries imp l = l.
+  Proof.
+    induction l as [| x r IH]; intro O; [reflexivity |].
+    simpl in *. destruct O as [O1 O2]. rewrite (IH O2).
+    destruct r as [| y r']; [reflexivity |]. simpl. now rewrite O1.
+  Qed.
+  Lemma refill_id es : refill imp es (filter is_import es) = es.
+  Proof.
+    induction es as [| e r IH]; [reflexivity |].
+    simpl. destruct (is_import e) eqn:E; simpl; rewrite ?E, IH; reflexivity.
+  Qed.
+  Lemma sort_imports_id es : ordered imp (filter is_import es) -> sort_imports imp es = es.
+  Proof. intro O. unfold sort_imports. rewrite (sort_ordered_id _ O). apply refill_id. Qed.
+
+  Lemma filter_decl l1 : forall l2,
+    map decl l1 = map decl l2 -> map decl (filter is_import l1) = map decl (filter is_import l2).
+  Proof.
+    induction l1 as [| a l1 IH]; intros [| b l2] H; try discriminate; [reflexivity |].
+    simpl in H. injection H as H1 H2. simpl. unfold Model.is_import. rewrite H1.
+    destruct (imp (decl b)); simpl; [rewrite H1; f_equal |]; now apply IH.
+  Qed.
+  Lemma ordered_decl l1 : forall l2, map decl l1 = map decl l2 -> ordered imp l1 -> ordered imp l2.
+  Proof.
+    induction l1 as [| a l1 IH]; intros [| b l2] H O; try discriminate; [exact I |].
+    simpl in H. injection H as H1 H2. simpl in *. destruct O as [O1 O2].
+    split; [| now apply (IH l2)].
+    destruct l1 as [| a' l1']; destruct l2 as [| b' l2']; try discriminate; [exact I |].
+    simpl in H2. injection H2 as H3 H4. unfold import_le in *. now rewrite <- H1, <- H3.
+  Qed.
+
+  (* the entries produced by the first pass *)
+  Lemma prep_facts srt strip es0 :
+    let es := prep imp srt strip es0 in
+    (strip = true -> map semi es = map (fun _ => false) es)
+    /\ (srt = true -> ordered imp (filter is_import es))
+    /\ (es = [] -> es0 = []).
+  Proof.
+    unfold prep. split; [| split].
+    - intro S. subst strip. destruct srt.
+      + (* sorting permutes entries whose semi flags are all false *)
+        assert (A : forall e, In e (sort_imports imp (strip_semis es0)) -> semi e = false).
+        { intros e Hin. apply (Permutation_in _ (sort_imports_perm imp _)) in Hin.
+          clear -Hin. induction es0 as [| x r IH]; [destruct Hin |].
+          simpl in Hin. destruct Hin as [<- | Hin]; [reflexivity | now apply IH]. }
+        induction (sort_imports imp (strip_semis es0)) as [| x r IH]; [reflexivity |].
+        simpl. rewrite (A x (or_introl eq_refl)). f_equal. apply IH. intros e Hin. apply A. now right.
+      + apply strip_all_false.
+    - intro S. subst srt.
+      destruct (sort_imports_shape imp (if strip then strip_semis es0 else es0)) as [_ [_ S3]].
+      rewrite S3. apply sort_ordered, filter_all.
+    - intro E.
+      assert (L : length (if srt then sort_imports imp (if strip then strip_semis es0 else es0)
+                          else if strip then strip_semis es0 else es0) = length es0).
+      { destruct srt.
+        - rewrite (Permutation_length (sort_imports_perm imp _)).
+          destruct strip; [apply map_length | reflexivity].
+        - destruct strip; [apply map_length | reflexivity]. }
+      rewrite E in L. destruct es0; [reflexivity | discriminate].
+  Qed.
+
+  Lemma prep_id srt strip es0 es' :
+    let es := prep imp srt strip es0 in
+    map decl es' = map decl es -> map semi es' = map semi es ->
+    prep imp srt strip es' = es'.
+  Proof.
+    intros es Hd Hs. destruct (prep_facts srt strip es0) as [F1 [F2 _]]. fold es in F1, F2.
+    unfold prep.
+    assert (S1 : (if strip then strip_semis es' else es') = es').
+    { destruct strip; [| reflexivity]. apply strip_id.
+      rewrite Hs, (F1 eq_refl). apply const_map_len.
+      rewrite <- (map_length decl es), <- Hd. apply map_length. }
+    rewrite S1. destruct srt; [| reflexivity].
+    apply sort_imports_id.
+    apply (ordered_decl (filter is_import es)); [| exact (F2 eq_refl)].
+    symmetry. now apply filter_decl.
+  Qed.
+End Prep.
+
+(* ================================================================ format_idempotent *)
+Section Final.
+  Variable imp : Z -> option (Z * Z).
+
+  Lemma parse_no_entries ls : entries (parse ls) = [] -> footer (parse ls) = [].
+  Proof.
+    unfold parse. destruct (fold_left pstep ls (Pre [] [])) as [hdr grp | hdr done cur adj nxt]; simpl; [reflexivity |].
+    intro H. destruct (rev done); discriminate.
+  Qed.
+
+  Lemma limit_cmts k cs : forall run X,
+    cs <> [] -> limit_blanks k run (cmt_lines cs ++ X) = cmt_lines cs ++ limit_blanks k O X.
+  Proof.
+    induction cs as [| c cs IH]; intros run X N; [contradiction |].
+    simpl. f_equal. destruct cs as [| c' cs']; [reflexivity |]. apply IH. discriminate.
+  Qed.
+
+  Lemma drop_final_cmts1 cs : cs <> [] -> drop_final_blank (cmt_lines cs ++ [LBlank]) = cmt_lines cs.
+  Proof.
+    induction cs as [| a t IH]; intro N; [contradiction |].
+    destruct t as [| b t']; [reflexivity |].
+    change (cmt_lines (a :: b :: t') ++ [LBlank]) with (LCmt a :: LCmt b :: (cmt_lines t' ++ [LBlank])).
+    rewrite drop_final_blank_cons.
+    change (cmt_lines (a :: b :: t')) with (LCmt a :: cmt_lines (b :: t')). f_equal.
+    apply IH. discriminate.
+  Qed.
+  Lemma drop_final_cmts2 cs : cs <> [] ->
+    drop_final_blank (cmt_lines cs ++ [LBlank; LBlank]) = cmt_lines cs ++ [LBlank].
+  Proof.
+    induction cs as [| a t IH]; intro N; [contradiction |].
+    destruct t as [| b t']; [reflexivity |].
+    change (cmt_lines (a :: b :: t') ++ [LBlank; LBlank]) with (LCmt a :: LCmt b :: (cmt_lines t' ++ [LBlank; LBlank])).
+    rewrite drop_final_blank_cons.
+    change (cmt_lines (a :: b :: t') ++ [LBlank]) with (LCmt a :: (cmt_lines (b :: t') ++ [LBlank])). f_equal.
+    apply IH. discriminate.
+  Qed.
+
+  (* a program without declarations: only header comments *)
+  Lemma header_only keep srt strip h :
+    format imp keep srt strip (collapse keep (render imp (mkd h [] []))) = collapse keep (render imp (mkd h [] [])).
+  Proof.
+    destruct h as [| c h']; [destruct srt, strip; reflexivity |].
+    set (h := c :: h').
+    assert (P1 : parse (cmt_lines h) = mkd h [] []).
+    { unfold parse. rewrite read_cmts_pre. reflexivity. }
+    assert (P2 : parse (cmt_lines h ++ [LBlank]) = mkd h [] []).
+    { unfold parse. rewrite fold_left_app, read_cmts_pre. simpl. now rewrite app_nil_r. }
+    assert (R : render imp (mkd h [] []) = cmt_lines h ++ [LBlank; LBlank]).
+    { unfold render, h. simpl. rewrite ?app_nil_r. reflexivity. }
+    assert (PR : forall srt strip, prep imp srt strip [] = []) by (intros [] []; reflexivity).
+    unfold collapse. rewrite R, limit_cmts by discriminate.
+    destruct (Z.to_nat keep) as [| [| k]] eqn:K; simpl limit_blanks.
+    - rewrite app_nil_r, (drop_final_nb _ (nb_cmts _)).
+      rewrite format_unfold, P1. simpl. rewrite PR. fold h. rewrite R.
+      unfold collapse. rewrite K, limit_cmts by discriminate. simpl limit_blanks.
+      now rewrite app_nil_r, (drop_final_nb _ (nb_cmts _)).
+    - assert (D1 : drop_final_blank (cmt_lines h ++ [LBlank]) = cmt_lines h)
+        by (apply drop_final_cmts1; discriminate).
+      rewrite D1.
+      rewrite format_unfold, P1. simpl. rewrite PR. fold h. rewrite R.
+      unfold collapse. rewrite K, limit_cmts by discriminate. simpl limit_blanks. exact D1.
+    - assert (D2 : drop_final_blank (cmt_lines h ++ [LBlank; LBlank]) = cmt_lines h ++ [LBlank])
+        by (apply drop_final_cmts2; discriminate).
+      rewrite D2.
+      rewrite format_unfold, P2. simpl. rewrite PR. fold h. rewrite R.
+      unfold collapse. rewrite K, limit_cmts by discriminate. simpl limit_blanks. exact D2.
+  Qed.
+
+  Theorem format_idempotent keep srt strip ls :
+    format imp keep srt strip (format imp keep srt strip ls) = format imp keep srt strip ls.
+  Proof.
+    rewrite (format_unfold imp keep srt strip ls).
+    set (P := parse ls).
+    set (es := prep imp srt strip (entries P)).
+    destruct es as [| e1 r] eqn:Ees.
+    - (* no declarations *)
+      destruct (prep_facts imp srt strip (entries P)) as [_ [_ F3]].
+      assert (E0 : entries P = []) by (apply F3; exact Ees).
+      assert (F0 : footer P = []) by (apply parse_no_entries; exact E0).
+      rewrite F0. apply header_only.
+    - set (h := header P). set (f := footer P).
+      assert (N : entries (mkd h (e1 :: r) f) <> []) by discriminate.
+      rewrite (render_txt imp _ N).
+      destruct (Z.to_nat keep) as [| k] eqn:K.
+      + (* KeepBlankLines = 0 *)
+        assert (EO : collapse keep (txt (tgI imp) true true (mkd h (e1 :: r) f))
+                     = txt tgT false false (mkd h (e1 :: r) f)).
+        { unfold collapse. rewrite K. apply (collapse_zero imp _ N). }
+        rewrite EO.
+        rewrite format_unfold, (parse_txt (tgT) false false h e1 r f).
+        destruct (ndoc_decls tgT false false h e1 r f) as [Nd [Ns Nn]].
+        assert (Pid : prep imp srt strip (entries (ndoc tgT false false h e1 r f)) = entries (ndoc tgT false false h e1 r f)).
+        { apply (prep_id imp srt strip (entries P)); fold es; rewrite Ees; assumption. }
+        rewrite Pid.
+        replace (mkd (header (ndoc tgT false false h e1 r f)) (entries (ndoc tgT false false h e1 r f)) (footer (ndoc tgT false false h e1 r f)))
+          with (ndoc tgT false false h e1 r f) by (destruct (ndoc tgT false false h e1 r f); reflexivity).
+        rewrite (render_txt imp _ Nn). unfold collapse. rewrite K.
+        rewrite (collapse_zero imp _ Nn). apply txt_ndoc.
+      + (* KeepBlankLines >= 1 *)
+        assert (EO : collapse keep (txt (tgI imp) true true (mkd h (e1 :: r) f))
+                     = txt (tgI imp) true true (mkd h (e1 :: r) f)).
+        { unfold collapse. rewrite K. apply (collapse_pos imp k _ N). }
+        rewrite EO.
+        rewrite format_unfold, (parse_txt (tgI imp) true true h e1 r f).
+        destruct (ndoc_decls (tgI imp) true true h e1 r f) as [Nd [Ns Nn]].
+        assert (Pid : prep imp srt strip (entries (ndoc (tgI imp) true true h e1 r f)) = entries (ndoc (tgI imp) true true h e1 r f)).
+        { apply (prep_id imp srt strip (entries P)); fold es; rewrite Ees; assumption. }
+        rewrite Pid.
+        replace (mkd (header (ndoc (tgI imp) true true h e1 r f)) (entries (ndoc (tgI imp) true true h e1 r f)) (footer (ndoc (tgI imp) true true h e1 r f)))
+          with (ndoc (tgI imp) true true h e1 r f) by (destruct (ndoc (tgI imp) true true h e1 r f); reflexivity).
+        rewrite (render_txt imp _ Nn). unfold collapse. rewrite K.
+        rewrite (collapse_pos imp k _ Nn). apply txt_ndoc.
+  Qed.
+End Final.
